@@ -426,9 +426,5 @@ O("C09.dly", ["C09", "C16", "C01"], "h_C09.c", "h_C09_dly",
                   "echs_instant_rescale": "identity on the Gregorian scale (C15.rescale.*)", "make_enum": "trusted: 1..24/60/60 entries (not discharged)", "rrul_fill_wly": "trusted: returns <= nti (not discharged)"},
   solver=["minisat"], mem_gb=28, timeout={"quick": 1500, "thorough": 7200}, replay=False, replay_note="callees replaced by contracts",
   defines=["-DRR_INTER_MAX=64U"])
-O("C17.shift.days", "C17", "h_C01k.c", "h_C17_shift_days",
-  "shift() with SHIFT=N calendar days (|N| <= 62 quick, <= 366 thorough) on a single candidate of any year 1902..2098: exactly one date comes out, it is the date N days away and it is filed under the year it falls in",
-  ["shift", "unpack_cand", "pack_cand", "__get_ndom"], solver=["minisat"], mem_gb=28, timeout={"quick": 900, "thorough": 7200},
-  kind="bounded", bound={"quick": "|N| <= 62", "thorough": "|N| <= 366"},
-  defines={"quick": ["-DSHIFT_NMAX=62"], "thorough": ["-DSHIFT_NMAX=366"]}, unwind={"quick": 6, "thorough": 16},
-  native_srcs=[x for x in LIBECHSE if x != "evrrul.c"], native_libs=["-lltdl", "-lm"])
+# C17.shift.days (harness h_C17_shift_days exists): out of memory / no answer at |N| <= 62 (both halves of shift() and the
+# +-383 container's insert path are in one formula) - not registered
